@@ -11,6 +11,7 @@
 from __future__ import annotations
 
 import json
+import math
 import re
 
 from pydantic import BaseModel, TypeAdapter
@@ -18,6 +19,7 @@ from pydantic import BaseModel, TypeAdapter
 _DEC = json.JSONDecoder()
 _TA: dict = {}
 OPENERS = "{["
+_OPENER_RUNS = re.compile(r"[{\[]+")
 MAX_OPENER_RUN = 400      # a value starting with >400 consecutive openers cannot be an instance of a depth<=3 schema
 
 
@@ -30,26 +32,20 @@ def text_candidates(raw: str):
             out.append(("whole", v))
     except (ValueError, RecursionError):
         pass
-    n = len(raw)
-    # length of the run of consecutive opener characters starting at each position (computed right-to-left)
-    run = 0
-    runs = {}
-    for i in range(n - 1, -1, -1):
-        if raw[i] in OPENERS:
-            run += 1
-            runs[i] = run
-        else:
-            run = 0
-    for i in sorted(runs):
-        if runs[i] > MAX_OPENER_RUN or raw[i] != "{":
-            # arrays cannot validate as a field model; their inner objects are visited at their own offsets
-            continue
-        try:
-            v, _ = _DEC.raw_decode(raw, i)
-        except (ValueError, RecursionError):
-            continue
-        if isinstance(v, dict):
-            out.append((i, v))
+    # every '{' of the text (runs of consecutive openers are found with one regex scan; a value starting with a very long
+    # run of openers is skipped, see MAX_OPENER_RUN)
+    for m in _OPENER_RUNS.finditer(raw):
+        start, end = m.span()
+        for i in range(start, end):
+            if end - i > MAX_OPENER_RUN or raw[i] != "{":
+                # arrays cannot validate as a field model; their inner objects are visited at their own offsets
+                continue
+            try:
+                v, _ = _DEC.raw_decode(raw, i)
+            except (ValueError, RecursionError):
+                continue
+            if isinstance(v, dict):
+                out.append((i, v))
     return out
 
 
@@ -77,11 +73,11 @@ def dump(v):
 
 
 def same(a, b):
-    """Type-strict, NaN-aware deep equality of dumped values."""
+    """Type-strict, NaN-aware, sign-of-zero-aware deep equality of dumped values."""
     if type(a) is not type(b):
         return False
     if isinstance(a, float):
-        return a == b or (a != a and b != b)
+        return (a == b and math.copysign(1.0, a) == math.copysign(1.0, b)) or (a != a and b != b)
     if isinstance(a, dict):
         return a.keys() == b.keys() and all(same(a[k], b[k]) for k in a)
     if isinstance(a, (list, tuple)):
